@@ -121,6 +121,8 @@ async def scenario(ctx: Ctx, res: Result, ep: str, rng, cases, meta, kind: str):
     router = Router()
 
     async def act_a(x: int = 0):
+        if x == 1:
+            await asyncio.sleep(0.25)        # a job still in flight while the worker drains
         done.append("a")
 
     async def act_b(x: int = 0):
@@ -213,7 +215,24 @@ async def scenario(ctx: Ctx, res: Result, ep: str, rng, cases, meta, kind: str):
                                     f"a connection opened before the consumer failure answered {code} after it", case0))
     await phase(False, "unhealthy")
     if kind == "normal":
-        enqueue("qa", "act_a", max(0, n_jobs - len([d for d in done if d == 'a'])) + 2)
+        enqueue("qa", "act_a", max(0, n_jobs - len([d for d in done if d == 'a']) - 1))
+        # the last allowed job is slow: the worker stops consuming and drains while it runs; a consumer HAS failed, so
+        # every answer until the port closes must still be 503
+        jid[0] += 1
+        w.mb.queues["qa"].simple.put_nowait(MemMessage(key(f"j{jid[0]}", "act_a", "qa"), '{"x": 1}', w.mb.PARAMETERS_CLASS()))
+        enqueue("qa", "act_a", 2)
+        drain_codes = []
+        while not task.done() and len(drain_codes) < 200:
+            c = await send(port, valid)
+            if c in (200, 503):
+                drain_codes.append(c)
+            await asyncio.sleep(0.02)
+        res.evaluations += len(drain_codes)
+        res.count("probes_while_draining", len(drain_codes))
+        if any(c == 200 for c in drain_codes):
+            res.failures.append(Failure("failure_forgotten_while_draining",
+                                        f"a consumer has failed, yet {sum(c == 200 for c in drain_codes)} of {len(drain_codes)} probes "
+                                        "answered 200 while the worker was finishing its last jobs", case0))
         try:
             await asyncio.wait_for(task, 10.0)
         except asyncio.TimeoutError:
